@@ -1043,6 +1043,11 @@ class Gen:
             rows.insert(r.randrange(len(rows) + 1), keep)
         if r.random() < 0.25 and rows:
             rows.append(list(rows[0]))  # duplicate row: multiplicity
+        x = r.random()
+        if x < 0.05:
+            return ["values", vs, []]                           # VALUES ?x { }: the empty multiset
+        if x < 0.09:
+            return ["values", [], [[]] * r.choice([1, 1, 2])]   # VALUES () { () }: empty solutions (join identity)
         return ["values", vs, rows]
 
     def group(self, depth, outer=frozenset(), first_tri=0.8, pool=None):
@@ -1234,6 +1239,67 @@ def _graph_probe(g):
     return ["group", _merge_tri(elts)]
 
 
+def _order_probe(g):
+    """group-element ORDER probe: { P1  X  P3 } where X is a non-triple element (MINUS / OPTIONAL / BIND / FILTER /
+    nested group / VALUES / sub-select / GRAPH) about a variable ?c that P1 does not bind and the triples P3 AFTER X do:
+    §18.2.2.6 folds the elements left to right, so X sees P1 only (Minus(P1, X) joined with P3, not Minus(P1 + P3, X)).
+    Also X first, X twice, and triples in every gap."""
+    r = g.rng
+    ts = [t for t in g.alltriples if t[0][0] != "b"] or [[["i", 0], ["i", 10], ["i", 1]]]
+    vs = list(range(g.pool))
+    r.shuffle(vs)
+    a, b, c, d = vs
+    w1 = r.choice(ts)
+    same = [t for t in ts if t[0] == w1[0]] or ts
+    w2 = r.choice(same) if r.random() < 0.85 else r.choice(ts)
+    w3 = r.choice(same) if r.random() < 0.85 else r.choice(ts)
+
+    def tri(s_, w, o_):
+        return ["tri", [[["v", s_], w[1] if r.random() < 0.9 else ["v", d], ["v", o_]]]]
+
+    def cst(x):
+        return x if x[0] != "b" else r.choice(g.consts)
+    p1 = tri(a, w1, b)
+    p3 = tri(a, w3, c) if r.random() < 0.75 else tri(b, r.choice(ts), c)
+    inner = ["group", [tri(a, w2, c)]]
+
+    def elt():
+        k = r.choice(["minus", "minus", "minus", "opt", "opt", "bind", "filter", "group", "values", "subsel", "graph"])
+        if k == "minus":
+            return ["minus", inner]
+        if k == "opt":
+            og = list(inner[1])
+            if r.random() < 0.3:
+                og.append(["filter", r.choice([["bound", c], ["cmp", "ne", ["var", c], ["var", b]]])])
+            return ["opt", ["group", og]]
+        if k == "bind":
+            return ["bind", r.choice([["bound", c], ["var", b], ["cmp", "eq", ["var", b], ["const", cst(w1[2])]]]), d]
+        if k == "filter":
+            return ["filter", r.choice([["bound", c], ["not", ["bound", c]], ["cmp", "ne", ["var", c], ["var", b]]])]
+        if k == "group":
+            return ["union", [inner] if r.random() < 0.6 else [inner, ["group", [["tri", []]]]]]
+        if k == "values":
+            return ["values", [c], [[cst(w2[2])], [cst(w3[2])]] if r.random() < 0.7 else [[cst(w2[2])], [None]]]
+        if k == "subsel":
+            return ["subsel", [a, c] if r.random() < 0.6 else [c], inner]
+        if g.has_named:
+            gp, gpool = g.gpos({a, c})
+            return ["graph", gp, inner]
+        return ["minus", inner]
+    shape = r.random()
+    if shape < 0.55:
+        elts = [p1, elt(), p3]
+    elif shape < 0.7:
+        elts = [elt(), p3]
+    elif shape < 0.85:
+        elts = [p1, elt(), p3, elt(), tri(a, r.choice(same), d if r.random() < 0.5 else c)]
+    else:
+        elts = [p1, elt(), elt(), p3]
+    if r.random() < 0.15:
+        elts = [["union", [["group", _fix_binds(elts)]]], g.triples({a, c})]
+    return ["group", _fix_binds(elts)]
+
+
 def _fix_binds(elts):
     """BIND's variable must not be in scope in the part of the group before it (§18.2.1 / grammar note 12);
     after a shuffle nothing about BIND changes (only filters move), so just re-check and drop offenders."""
@@ -1250,6 +1316,8 @@ def gen_query(rng, ds, depth=3, forms=("select", "select", "select", "ask", "con
     g = Gen(rng, ds, depth, features=features)
     if probe_share and g.has_named and rng.random() < probe_share / 4:
         where = _graph_probe(g)   # GRAPH ?g over bodies that match a graph without triples
+    elif probe_share and rng.random() < probe_share / 3:
+        where = _order_probe(g)   # triples before AND after a MINUS / OPTIONAL / BIND / FILTER / sub-group / VALUES / sub-select
     elif probe_share and rng.random() < probe_share:
         where = _probe_group(g)   # a variable bound inside a nested group AND by its sibling, with FILTER/MINUS/OPTIONAL on it
     else:
@@ -1648,8 +1716,8 @@ def encode_rdflib_algebra(p):
         return f"(graph {_enc_pos(p.term)} {encode_rdflib_algebra(p.p)})"
     if n == "ToMultiSet":
         inner = p.p
-        if isinstance(inner, list):  # VALUES with no variables / no rows translate to a bare list
-            raise ValueError("empty VALUES block is outside the modelled fragment (evalMultiset raises on it)")
+        if isinstance(inner, list):  # before fix C04-F16 VALUES with no variables / no rows translated to a bare list
+            raise ValueError("ToMultiSet of a bare list: translateValues did not build a values node")
         if inner.name == "values":
             res = inner.res
             vs = []
@@ -2183,3 +2251,56 @@ def annot_line(a):
             raise ValueError(a)
     walk(a)
     return "annot " + " ".join(out)
+
+
+def canon_tree_text(qsx):
+    """canonical text of rdflib's own translated tree (parsed s-expression of encode_rdflib_algebra): BGPs as sorted bags of
+    triple patterns (reorderTriples is not modelled), variable sets sorted, a VALUES block without rows as `(values)`, the
+    CONSTRUCT template left out — the format the driver's `translate` command prints for the Lean model of the translation"""
+    def vs(v):
+        return "none" if v == "none" else "(vars" + "".join(f" {k}" for k in sorted(set(_ints(v)))) + ")"
+
+    def ex(e):
+        k = e[0]
+        if k in ("var", "bound", "const"):
+            return f"({k} {e[1]})"
+        if k == "cmp":
+            return f"(cmp {e[1]} {ex(e[2])} {ex(e[3])})"
+        if k in ("and", "or"):
+            return f"({k} {ex(e[1])} {ex(e[2])})"
+        if k == "not":
+            return f"(not {ex(e[1])})"
+        if k in ("exists", "nexists"):
+            return f"({k} {al(e[1])})"
+        raise ValueError(e)
+
+    def al(a):
+        k = a[0]
+        if k == "bgp":
+            ts = sorted(" ".join(a[i:i + 3]) for i in range(1, len(a), 3))
+            return "(bgp" + "".join(" " + t for t in ts) + ")"
+        if k == "join":
+            return f"(join {a[1]} {al(a[2])} {al(a[3])})"
+        if k == "leftjoin":
+            return f"(leftjoin {al(a[1])} {al(a[2])} {ex(a[3])} {vs(a[4])} {vs(a[5])})"
+        if k == "filter":
+            return f"(filter {ex(a[1])} {al(a[2])} {vs(a[3])} {a[4]})"
+        if k == "union":
+            return f"(union {al(a[1])} {al(a[2])})"
+        if k == "minus":
+            return f"(minus {al(a[1])} {al(a[2])} {vs(a[3])} {vs(a[4])})"
+        if k == "extend":
+            return f"(extend {al(a[1])} {a[2]} {ex(a[3])} {vs(a[4])})"
+        if k == "graph":
+            return f"(graph {a[1]} {al(a[2])})"
+        if k == "values":
+            rows = a[2:]
+            if not rows:
+                return "(values)"
+            return ("(values (vars" + "".join(f" {x}" for x in a[1][1:]) + ")" +
+                    "".join(" (row" + "".join(f" {c}" for c in r[1:]) + ")" for r in rows) + ")")
+        if k == "project":
+            return f"(project {al(a[1])} {vs(a[2])})"
+        raise ValueError(a)
+    form = qsx[0]
+    return f"tree ({form} {vs(qsx[-2])} {al(qsx[-1])})"
